@@ -8,6 +8,16 @@
  *       requires  source well-formed with count == min_size, valid handle whose child is a leaf
  *       ensures   view(new) = view(source) minus that key byte, count(new) = min_size(FROM) - 1 = capacity(TO), prefix copied, well-formed,
  *                 that leaf handed to the leaf deleter exactly once, the source handed to the inode deleter exactly once */
+#include "verif_rt.h"
+/* ---- loop invariants of the three copy routines with 256-step loops (cut points; see the comment block "COPY ROUTINES" below) */
+#if FROM == 3 && TO == 4
+static void g1_base(void *this_p, void *src_p, void *i_p, void *c_p); static void g1_head(void *this_p, void *src_p, void *i_p, void *c_p); static void g1_back(void *this_p, void *src_p, void *i_p, void *c_p);
+static void g2_base(void *this_p, void *src_p, void *i_p); static void g2_head(void *this_p, void *src_p, void *i_p); static void g2_back(void *this_p, void *src_p, void *i_p);
+#define VERIF_LOOP_HEAD_INIT_while_2econd do { g1_base(m_this_2eaddr, m_source_node_2eaddr, &m_i, &m_children_copied); VERIF_LOOP_HAVOC_INIT_while_2econd; g1_head(m_this_2eaddr, m_source_node_2eaddr, &m_i, &m_children_copied); } while (0)
+#define VERIF_LOOP_BACK_INIT_while_2econd g1_back(m_this_2eaddr, m_source_node_2eaddr, &m_i, &m_children_copied)
+#define VERIF_LOOP_HEAD_INIT_for_2econd do { g2_base(m_this_2eaddr, m_source_node_2eaddr, &m_i); VERIF_LOOP_HAVOC_INIT_for_2econd; g2_head(m_this_2eaddr, m_source_node_2eaddr, &m_i); } while (0)
+#define VERIF_LOOP_BACK_INIT_for_2econd g2_back(m_this_2eaddr, m_source_node_2eaddr, &m_i)
+#endif
 #include "x_types.h"
 #include "x_body.h"
 static unsigned G_frees;
@@ -24,7 +34,7 @@ static uint8_t *mk_src(void) {
   SRC_T *t = malloc(sizeof(SRC_T)); __CPROVER_assume(t != 0); uint8_t *o = (uint8_t *)t;
   nv_load(&VS, o, FROM); __CPROVER_assume(nv_wf_global(&VS));
   Q = nondet_u8(); __CPROVER_assume(nv_wf_at(&VS, Q));
-#if FROM == 3
+#if FROM == 3 && TO != 4      /* the growth to N256 uses the counting (rank) form of the N48 invariant instead: rk_define() */
   for (int j = 0; j < 48; j++) { G_owner[j] = nondet_u8(); G_used[j] = nondet_bool(); } __CPROVER_assume(nv_wf_48_full(&VS, G_owner, G_used));
 #endif
 #if FROM == 4
@@ -40,9 +50,60 @@ static void post_common(uint8_t *src, uint8_t *dst) {
   if (TO <= 2) __CPROVER_assert(nv_wf_small(&VD), "C10: the new node is well-formed (keys strictly ascending, live slots non-null, count in range)");
   else __CPROVER_assert(nv_wf_global(&VD) && nv_wf_at(&VD, Q) && nv_wf_at(&VD, IN_b), "C10: the new node is well-formed (global part and the instances at the witness and the touched key byte)");
 }
+
+/* ================================================================== COPY ROUTINES: loop invariants
+ * Ghost rank array RK over the SOURCE view: RK[b] = number of key bytes < b that the routine will copy.  It is assumed pointwise
+ * (RK[0] = 0, RK[b+1] = RK[b] + copied(b)), which DEFINES it, plus its total RK[256] (= the number of children copied), which is the
+ * counting form of the source's well-formedness (for N48: the bijection between used slots and mapped key bytes gives #mapped key bytes ==
+ * #used slots == count - a pigeonhole fact the SAT back end cannot derive from the slot-wise bijection; stated in the job's assumptions).
+ * Heap havoc at a cut point: every element of the destination arrays the loop writes is replaced by a nondeterministic value, then the
+ * invariant is assumed for the witness key byte Q only (pointwise form of the universally quantified invariant).  Frame: the back-edge check
+ * re-reads the source at the witness and the destination header. */
+static uint8_t RK[257];
+#if FROM == 3 && TO == 4
+static _Bool copied_(unsigned b) { return VS.keys[b] != N48_EMPTY; }
+static void rk_define(void) { for (unsigned b = 0; b <= 256; b++) RK[b] = nondet_u8(); __CPROVER_assume(RK[0] == 0); for (unsigned b = 0; b < 256; b++) __CPROVER_assume(RK[b + 1] == RK[b] + (copied_(b) ? 1 : 0)); __CPROVER_assume(RK[256] == 48); }
+static uint8_t *G_dst, *G_src; static unsigned G_ib; static uint8_t G_dcount0; static uint64_t G_dprefix0;
+#define DCH(d, b) (*(uint64_t *)((d) + n_off_children(4) + 8u * (unsigned)(b)))
+static void havoc_dst(uint8_t *d) { for (unsigned b = 0; b < 256; b++) DCH(d, b) = nondet_u64(); }
+static void frame_(uint8_t *d, uint8_t *sp) {
+  __CPROVER_assert(d == G_dst && sp == G_src, "the loops work on this destination and this source");
+  __CPROVER_assert(N_KEY(sp, 3, Q) == VS.keys[Q] && (VS.keys[Q] == N48_EMPTY || N_SLOT(sp, 3, VS.keys[Q] < 48 ? VS.keys[Q] : 0) == VS.slots[VS.keys[Q] < 48 ? VS.keys[Q] : 0]) && N_COUNT(sp, 3) == VS.count, "frame: the loop does not modify the source (witness key byte, count)");
+  __CPROVER_assert(N_COUNT(d, 4) == G_dcount0 && N_PREFIX(d, 4) == G_dprefix0, "frame: the loop does not modify the destination's header");
+}
+static _Bool inv1_(uint8_t *d, unsigned i, unsigned c) { return i <= 255 && c == RK[i] && c < 48 && (Q >= i || DCH(d, Q) == nv_child(&VS, Q)); }
+static void g1_base(void *this_p, void *src_p, void *i_p, void *c_p) {
+  G_dst = this_p; G_src = src_p; G_dcount0 = N_COUNT(G_dst, 4); G_dprefix0 = N_PREFIX(G_dst, 4);
+  __CPROVER_assert(inv1_(G_dst, *(uint32_t *)i_p, *(uint32_t *)c_p), "loop 1 invariant holds on entry (i = 0, nothing copied)");
+}
+static void g1_head(void *this_p, void *src_p, void *i_p, void *c_p) { havoc_dst(this_p); __CPROVER_assume(inv1_(this_p, *(uint32_t *)i_p, *(uint32_t *)c_p)); G_ib = *(uint32_t *)i_p; }
+static void g1_back(void *this_p, void *src_p, void *i_p, void *c_p) {
+  frame_(this_p, src_p);
+  __CPROVER_assert(*(uint32_t *)i_p == G_ib + 1 && inv1_(this_p, *(uint32_t *)i_p, *(uint32_t *)c_p), "loop 1 invariant preserved: copied == rank(i), fewer than 48 so far (so i stays below 256), destination[Q] == source view at Q for Q < i");
+  VERIF_CANARY("loop 1 continues"); __CPROVER_assume(0);
+}
+/* loop 2 (fill the rest with null): i_b = the index at which the 48th child was copied */
+static unsigned G_ib2;
+static _Bool inv2_(uint8_t *d, unsigned i) { return i > G_ib2 && i <= 256 && G_ib2 <= 255 && RK[G_ib2 + 1] == 48 && (Q > G_ib2 || DCH(d, Q) == nv_child(&VS, Q)) && (Q <= G_ib2 || Q >= i || DCH(d, Q) == 0); }
+static void g2_base(void *this_p, void *src_p, void *i_p) {
+  frame_(this_p, src_p);
+  G_ib2 = *(uint32_t *)i_p - 1;
+  __CPROVER_assert(*(uint32_t *)i_p >= 1 && inv2_(this_p, *(uint32_t *)i_p), "loop 2 invariant holds on entry: everything up to the 48th copied child is in place, all 48 are copied");
+}
+static unsigned G_i2;
+static void g2_head(void *this_p, void *src_p, void *i_p) { havoc_dst(this_p); __CPROVER_assume(inv2_(this_p, *(uint32_t *)i_p)); G_i2 = *(uint32_t *)i_p; }
+static void g2_back(void *this_p, void *src_p, void *i_p) {
+  frame_(this_p, src_p);
+  __CPROVER_assert(*(uint32_t *)i_p == G_i2 + 1 && inv2_(this_p, *(uint32_t *)i_p), "loop 2 invariant preserved: the slots after the 48th copied child are null up to i");
+  VERIF_CANARY("loop 2 continues"); __CPROVER_assume(0);
+}
+#endif
 #if TO == FROM + 1
 void harness(void) {
   uint8_t *src = mk_src(); __CPROVER_assume(nv_count(&VS) == n_capacity(FROM));
+#if FROM == 3 && TO == 4
+  rk_define();
+#endif
   uint8_t *leaf = malloc(NLAY(POL, LEAF, DATA) + 8 + 4); __CPROVER_assume(leaf != 0); *(uint32_t *)(leaf + NLAY(POL, LEAF, KEYSIZE)) = 8;
   IN_depth = nondet_u32(); __CPROVER_assume(IN_depth < 8); IN_b = leaf[NLAY(POL, LEAF, DATA) + IN_depth];
   __CPROVER_assume(nv_child(&VS, IN_b) == 0 && nv_wf_at(&VS, IN_b));
